@@ -66,6 +66,24 @@ MARK = "\n## 11. What was built, per property (generated from design.d/)\n"
 if MARK in d:
     d = d[:d.index(MARK)]
 body = MARK + "\nEach part below is written by whoever built that property's model and check; it records the model scope, the exact theorems, findings with their failing inputs, which seeded or self-made mutations the check catches, and costs.\n\n"
+# summary numbers (regenerated with everything else)
+_seeds = [json.load(open(f)) for f in sorted(glob.glob(os.path.join(ROOT, "seeded", "*", "meta.json")))]
+def _missed_first(s_):
+    d_ = str(s_.get("detection", "")).lower()
+    return d_.startswith("missed") or "missed at first" in d_[:120] or "missed by the quick tier" in d_[:60]
+_first = sum(1 for s_ in _seeds if not _missed_first(s_) and str(s_.get("caught_by", "-")) not in ("-", "", "?"))
+_later = sum(1 for s_ in _seeds if _missed_first(s_) and str(s_.get("caught_by", "-")) not in ("-", "", "?"))
+_open = [s_ for s_ in _seeds if str(s_.get("caught_by", "-")) in ("-", "", "?")]
+_nthm = 0
+for c_ in m["checks"]:
+    try:
+        _nthm += int(json.load(open(os.path.join(ROOT, c_["evidence_file"])))["coverage"].get("obligations", 0))
+    except Exception:
+        pass
+body += "### Summary (generated)\n\n* properties claimed: %d of %d (not_applicable: %d)\n* property theorems checked per run (sum over `Properties/Cxx.v`, each followed by `Print Assumptions`): %d, all closed under the global context\n* findings on the pinned tree: %d repaired in lal by a `fix:` commit, %d recorded as open known findings\n* seeded changes (`seeded/`): %d, of which %d were reported at the first run of the checks, %d after the checks were strengthened, %d not (yet) reported: %s\n\n" % (
+    len(m["checks"]), len(props), len(m["not_applicable"]), _nthm,
+    sum(1 for e in kf if e.get("status") == "fixed"), sum(1 for e in kf if e.get("status") == "open"),
+    len(_seeds), _first, _later - 0, len(_open), ", ".join(sorted(os.path.basename(os.path.dirname(f)) for f in glob.glob(os.path.join(ROOT, "seeded", "*", "meta.json")) if str(json.load(open(f)).get("caught_by", "-")) in ("-", "", "?"))) or "none")
 # table of every finding (from known_findings.d) and of every seeded change (from seeded/*/meta.json)
 body += "### Findings on the pinned tree (supersedes the plan in section 8)\n\n| id | property | status | lal commit | what |\n|---|---|---|---|---|\n"
 for e in sorted(kf, key=lambda e: (e.get("property", ""), e.get("finding_id", ""))):
